@@ -10,10 +10,26 @@ import Driver.Util
         <recs>   = p,sl,sc,el,ec,t,m,g;…     (strings hex, "_" = key omitted)
         <suites> = name,tests[case|case…];…  case = name,message,type (hex)
 
-    exit lint|breaking <controller steps> <check steps>
-    exit build <controller steps>
-        steps: string over o (ok) a (annotation set) i (import not found) x (other error); "-" = none
+      … TAB djunit=<junit fields>     (the model's junit decoder on the model's testsuites)
+
+    dec text|msvs|gha <hex of the REAL output of the implementation>
+      -> the format's decoder (`parseTextLine` / `parseMsvsLine` / `parseGhaLine`) on every line:
+         fields;fields;…   ("!" for a line that does not decode, "-" for no lines)
+         text p,l,c,t   msvs p,l,c,type,t   gha p,l,c,el,ec,msg   junit suite,type,sl,sc,p,l,c,t
+
+    exit lint|breaking <body steps> <check steps>
+    exit lint|breaking <pre steps> <body steps> <check steps> <close step>
+    exit build|depgraph <steps>
+        steps: string over o (ok) a (annotation set) i (import not found) x (other error)
+        s (system error); lower case = the step runs in a controller method, upper case = directly
+        in the command's run function; "-" = none
       -> exit=<n> printed=<0|1> failure=<0|1>
+
+    err c|d <error>       one error value returned by a controller method (c) / directly (d)
+        <error> = A<n> (annotation set, n annotations) | I (import not exist) | T (errors.New("x"))
+                | Z (errors.New("")) | W(e) fmt.Errorf("w: %w", e) | P<code>(e) app.WrapError(code, e)
+                | S(e) syserror.Wrap(e) | C(e) connect unavailable | K(e) connect internal | J(e,e) errors.Join
+      -> exit=<n> printed=<count> failure=<0|1>
     exit format <mode> <source writable 0|1> <controller steps> <format step> <diff 0|1>
                 <copy-diff step> <rewrite step> <output step>
         <mode> = subset of the letters d (-d) w (-w) o (-o <dir or .proto file>) e (--exit-code); "-" = plain
@@ -67,6 +83,22 @@ def encSuite (s : JSuite) : String :=
 
 def listOr (l : List String) : String := if l.isEmpty then "-" else ";".intercalate l
 
+def encTextF (t : TextF) : List String := [encS t.path, toString t.line, toString t.col, encS t.text]
+
+def encCarried : Carried → String
+  | .text t => ",".intercalate (encTextF t)
+  | .msvs m => ",".intercalate [encS m.path, toString m.line, toString m.col, encS m.type, encS m.text]
+  | .gha g => ",".intercalate [encS g.path, toString g.line, toString g.col, toString g.endLine, toString g.endCol, encS g.msg]
+  | .json r => encJson r
+  | .junit j => ",".intercalate ([encS j.suite, encS j.type, toString j.sl, toString j.sc] ++ encTextF j.text)
+
+def encDecoded (l : List (Option Carried)) : String :=
+  listOr (l.map fun o => match o with | some c => encCarried c | none => "!")
+
+/-- the decoder of format `f` on every line of a printed text -/
+def handleDec (f : Format) (out : Str) : String :=
+  encDecoded ((Doc.lines out).items.map (parseItem f))
+
 def handleAnn (as : List Annot) : String :=
   let sorted := dedupSort as
   "\t".intercalate [
@@ -75,23 +107,75 @@ def handleAnn (as : List Annot) : String :=
     "msvs=" ++ encS (printLines msvsLine sorted),
     "gha=" ++ encS (printLines ghaLine sorted),
     "json=" ++ listOr ((sorted.map jsonRec).map encJson),
-    "junit=" ++ listOr ((junitSuites sorted).map encSuite)]
+    "junit=" ++ listOr ((junitSuites sorted).map encSuite),
+    "djunit=" ++ encDecoded ((Doc.junit (junitSuites sorted)).items.map (parseItem .junit))]
 
 def dummy : Annot :=
   { file := some "a.proto".toList, sl := 1, sc := 1, el := 1, ec := 1, type := "X".toList, msg := "m".toList, plugin := [] }
 
-def decSteps (s : String) : Option (List Step) :=
-  if s = "-" then some [] else
-  s.toList.mapM fun c =>
-    if c = 'o' then some none
-    else if c = 'a' then some (some (.annots dummy []))
-    else if c = 'i' then some (some .importNotExist)
-    else if c = 'x' then some (some .other)
-    else none
+/-- n annotations that differ in the start line -/
+def dummies (n : Nat) : List Annot := (List.range n).map fun i => { dummy with sl := i + 1 }
+
+def decCStep (c : Char) : Option CStep :=
+  let via := c.isLower
+  match c.toLower with
+  | 'o' => some (via, none)
+  | 'a' => some (via, some (.annotSet dummy []))
+  | 'i' => some (via, some .importNotExist)
+  | 'x' => some (via, some (.plain true))
+  | 's' => some (via, some (.sys (.plain true)))
+  | _ => none
+
+def decCSteps (s : String) : Option (List CStep) :=
+  if s = "-" then some [] else s.toList.mapM decCStep
+
+def decSteps (s : String) : Option (List Step) := (decCSteps s).map fun l => l.map (·.2)
 
 def decStep (s : String) : Option Step :=
   match decSteps s with
   | some [x] => some x
+  | _ => none
+
+/-- close step: "-" / "o" = no error -/
+def decClose (s : String) : Option Step :=
+  if s = "-" then some none else decStep s
+
+/-- recursive-descent parser of the error notation -/
+partial def parseErr : List Char → Option (GoErr × List Char)
+  | 'I' :: r => some (.importNotExist, r)
+  | 'T' :: r => some (.plain true, r)
+  | 'Z' :: r => some (.plain false, r)
+  | 'A' :: r =>
+    let ds := r.takeWhile Char.isDigit
+    match dummies (String.ofList ds).toNat! with
+    | [] => none
+    | a :: t => some (.annotSet a t, r.dropWhile Char.isDigit)
+  | 'W' :: '(' :: r => unary .wrapf r
+  | 'S' :: '(' :: r => unary .sys r
+  | 'C' :: '(' :: r => unary (.connect true) r
+  | 'K' :: '(' :: r => unary (.connect false) r
+  | 'P' :: r =>
+    let ds := r.takeWhile Char.isDigit
+    match r.dropWhile Char.isDigit with
+    | '(' :: r' => if ds.isEmpty then none else unary (newAppError (String.ofList ds).toNat!) r'
+    | _ => none
+  | 'J' :: '(' :: r =>
+    match parseErr r with
+    | some (a, ',' :: r') =>
+      match parseErr r' with
+      | some (b, ')' :: r'') => some (.join a b, r'')
+      | _ => none
+    | _ => none
+  | _ => none
+where
+  unary (f : GoErr → GoErr) (r : List Char) : Option (GoErr × List Char) :=
+    match parseErr r with
+    | some (e, ')' :: r') => some (f e, r')
+    | _ => none
+
+def decErr (s : String) : Option GoErr :=
+  match parseErr s.toList with
+  | some (e, []) => some e
   | _ => none
 
 def decBool (s : String) : Option Bool :=
@@ -113,18 +197,39 @@ def showOutcome (o : Outcome) : String :=
   "exit=" ++ toString o.exit ++ " printed=" ++ (if o.printed.isEmpty then "0" else "1")
     ++ " failure=" ++ (if o.failureLine then "1" else "0")
 
+def showErrOutcome (o : Outcome) : String :=
+  "exit=" ++ toString o.exit ++ " printed=" ++ toString o.printed.length
+    ++ " failure=" ++ (if o.failureLine then "1" else "0")
+
 def handle : List String → String
   | ["ann", s] => match decAnnots s with
       | some as => handleAnn as
       | none => "bad-op"
-  | ["exit", "lint", c, k] => match decSteps c, decSteps k with
-      | some c, some k => showOutcome (lintLike c k) | _, _ => "bad-op"
-  | ["exit", "breaking", c, k] => match decSteps c, decSteps k with
-      | some c, some k => showOutcome (lintLike c k) | _, _ => "bad-op"
-  | ["exit", "build", c] => match decSteps c with
+  | ["dec", "text", s] => match decStr s with
+      | some t => handleDec .text t | none => "bad-op"
+  | ["dec", "msvs", s] => match decStr s with
+      | some t => handleDec .msvs t | none => "bad-op"
+  | ["dec", "gha", s] => match decStr s with
+      | some t => handleDec .gha t | none => "bad-op"
+  | ["err", via, e] => match decErr e with
+      | some e =>
+        if via = "c" then showErrOutcome (failStep e [])
+        else if via = "d" then showErrOutcome (failDirect e) else "bad-op"
+      | none => "bad-op"
+  | ["exit", "lint", c, k] => match decCSteps c, decSteps k with
+      | some c, some k => showOutcome (lintLike [] c k none) | _, _ => "bad-op"
+  | ["exit", "breaking", c, k] => match decCSteps c, decSteps k with
+      | some c, some k => showOutcome (lintLike [] c k none) | _, _ => "bad-op"
+  | ["exit", "lint", p, c, k, cl] => match decSteps p, decCSteps c, decSteps k, decClose cl with
+      | some p, some c, some k, some cl => showOutcome (lintLike p c k cl) | _, _, _, _ => "bad-op"
+  | ["exit", "breaking", p, c, k, cl] => match decSteps p, decCSteps c, decSteps k, decClose cl with
+      | some p, some c, some k, some cl => showOutcome (lintLike p c k cl) | _, _, _, _ => "bad-op"
+  | ["exit", "build", c] => match decCSteps c with
       | some c => showOutcome (build c) | none => "bad-op"
+  | ["exit", "depgraph", c] => match decCSteps c with
+      | some c => showOutcome (Cmd.depGraph c).run | none => "bad-op"
   | ["exit", "format", m, sw, c, f, d, cp, rw, o] =>
-      match decMode m, decBool sw, decSteps c, decStep f, decBool d, decStep cp, decStep rw, decStep o with
+      match decMode m, decBool sw, decCSteps c, decStep f, decBool d, decStep cp, decStep rw, decStep o with
       | some m, some sw, some c, some f, some d, some cp, some rw, some o =>
         let r := formatFull m sw c f d { copyDiff := cp, rewrite := rw, output := o }
         showOutcome r.1 ++ " " ++ showEffects r.2
